@@ -48,6 +48,10 @@ def make_body(n: int, content: str, seed: int):
     return out + b"." * (n - len(out))
 
 
+METAS = ["text/gemini", "application/octet-stream", "text/plain; charset=utf-8", "",
+         "text/plain; charset=iso-8859-1", "text/gemini; charset=utf-16", "text/gemini; lang=fr"]
+
+
 def length_st(maxn: int):
     near = st.sampled_from([b for b in BOUNDARIES if b <= maxn]).flatmap(
         lambda b: st.integers(max(0, b - 20), min(maxn, b + 4)))
@@ -63,7 +67,7 @@ def case_st(maxn):
             "as_str": st.booleans(),
             "reader": st.sampled_from(["drain", "slow", "slow1", "halfclose", "halfclose-slow"]),
             "seed": st.integers(0, 2**32),
-            "meta": st.sampled_from(["text/gemini", "application/octet-stream", "text/plain; charset=utf-8", ""]),
+            "meta": st.sampled_from(METAS),
             "tls": st.sampled_from(["1.3", "1.2"]),
         })
     return build
@@ -263,7 +267,6 @@ def _live_ports():
     return _live
 
 
-METAS = ["text/gemini", "application/octet-stream", "text/plain; charset=utf-8", ""]
 
 
 def run_live(case: dict):
